@@ -33,3 +33,17 @@ Example C10_example :
   send_data true [RWouldBlock; RTake 2; RWouldBlock; RTake 100] [1; 2; 3; 4; 5]%N = ([1; 2; 3; 4; 5]%N, Some true, []) /\
   send_data true [RTake 2; RError; RTake 9] [1; 2; 3; 4; 5]%N = ([1; 2]%N, Some false, [RTake 9]).
 Proof. split; reflexivity. Qed.
+
+(* One message, one connection (D79).  The socket is looked up once per message (Gen/Send.v, regenerated: `send_on_one_socket`).  For every
+   message, however the socket takes it and whenever the connection ends and the next one is established in between: the connection that
+   follows gets no byte of the message, the one it was started on has taken a prefix, and a reported success means it has taken all of it. *)
+Theorem C10_message_stays_on_its_connection : forall oracle data a b res,
+  send_data2 send_on_one_socket oracle data = (a, b, res) -> b = [] /\ (exists k, a = firstn k data) /\ (res = Some true -> a = data).
+Proof. change send_on_one_socket with true. exact send_stays_on_its_connection. Qed.
+Print Assumptions C10_message_stays_on_its_connection.
+
+(* looking the socket up again for every part, as the code did before: success, two bytes on the first connection, two on the second *)
+Theorem C10_send_across_connections_refuted :
+  send_data2 false [R2 (RTake 2); RReplaced; R2 (RTake 5)] [1; 2; 3; 4]%N = ([1; 2]%N, [3; 4]%N, Some true).
+Proof. exact send_across_connections_refuted. Qed.
+Print Assumptions C10_send_across_connections_refuted.
